@@ -1,17 +1,26 @@
 """C04 — timeout wrappers: deadlines only shrink, outcomes are all-or-nothing."""
 import os
+import threading
 
 LEVEL = "model_checking"
 RULE = ("TLC enumerates every worker script of TimeoutGen (SetHeader/WriteHeader/Write chunk/Cancel/AwaitCtx, then "
         "Return|Panic|Ignore; <=3 operations quick, <=4 thorough; (resp,err)/panic/ignore scripts for rpc and fx). Each "
         "script is run as the wrapped work of the real TimeoutHandler, of rest.Server routes bound by the engine (global "
         "vs per-route vs SSE), of the zRPC server/client interceptors and of fx.DoWithTimeout, under own-timeout / "
-        "caller-deadline / cancellation / already-expired / exempt configurations and three steering modes; every call is "
-        "one trace validated by TLC against the Layer-P monitor Timeout.tla. distinct = distinct (driver, script) pairs.")
+        "caller-deadline (none / earlier / equal / later / far later than now+timeout, standard and user-defined context "
+        "types) / cancellation / already-expired / exempt configurations and three steering modes; every call is one trace "
+        "validated by TLC against the Layer-P monitor Timeout.tla. Sessions: TLC enumerates every schedule of TimeoutSessGen "
+        "(2 calls quick, 2-3 thorough, through ONE TimeoutHandler value: start / operation before or after the call's "
+        "return / end by cancel or expiry / finish by return or panic, in every order); quick: all schedules in which work "
+        "acts after its call returned plus a seeded sample of the others (1600), thorough: a seeded sample of 22000 (4/5 "
+        "with such stale work), executed step by step and validated against one monitor per call + Isolation "
+        "(TimeoutSess.tla). distinct = distinct (driver, script or schedule) pairs.")
 
 FAM = "timeout"
 DRV = ["zz_verif_c04_timeout_test.go"]
+SDRV = ["zz_verif_c04_timeout_test.go", "zz_verif_c04_sess_test.go"]
 TRACE = ("TimeoutTrace", "TimeoutTrace.cfg")
+STRACE = ("TimeoutSessTrace", "TimeoutSessTrace.cfg")
 
 
 def _merge(run, files, name):
@@ -24,11 +33,56 @@ def _merge(run, files, name):
 
 def check(run):
     thorough = run.tier == "thorough"
-    only = os.environ.get("VERIF_C04_ONLY")   # debugging aid: "rest", "engine", "small" (skips the rest and the MC)
+    only = os.environ.get("VERIF_C04_ONLY")   # debugging aid: "rest", "engine", "sess", "small" (skips the rest and the MC)
+    # the design-level model checking and the conformance drivers are independent: run them side by side
+    # (scratch names are handed out under a lock; the spec copy is made before a second thread starts)
+    lock, orig_tmp = threading.Lock(), run.tmp
+
+    def tmp(name):
+        with lock:
+            return orig_tmp(name)
+    run.tmp = tmp
+    run._spec_copy(FAM)
     if only:
         return _drivers(run, thorough, only)
-    _design(run, thorough)
-    _drivers(run, thorough, None)
+    err = []
+
+    def design():
+        try:
+            if thorough:    # the long configurations of the two model families side by side
+                _par(lambda: _design(run, thorough), lambda: _design2(run, thorough))
+            else:
+                _design(run, thorough)
+                _design2(run, thorough)
+        except BaseException as ex:  # noqa: re-raised in the main thread
+            err.append(ex)
+    th = threading.Thread(target=design)
+    th.start()
+    try:
+        _drivers(run, thorough, None)
+    finally:
+        th.join()
+    if err:
+        raise err[0]
+
+
+def _par(*fns):
+    """run independent TLC jobs side by side; the first exception is re-raised"""
+    out, err = [None] * len(fns), []
+
+    def job(i, fn):
+        try:
+            out[i] = fn()
+        except BaseException as ex:  # noqa: re-raised by the caller
+            err.append(ex)
+    ths = [threading.Thread(target=job, args=(i, fn)) for i, fn in enumerate(fns)]
+    for th in ths:
+        th.start()
+    for th in ths:
+        th.join()
+    if err:
+        raise err[0]
+    return out
 
 
 def _design(run, thorough):
@@ -39,6 +93,8 @@ def _design(run, thorough):
         "recorded as 'stuck' (ReturnsWithoutWorker); the driver releases such a worker only after the wrapper returned",
         "handlers that call Flush (streaming) are outside the quantifier; custom httpx error handlers are not installed",
         "the client side is a harness ResponseWriter that freezes headers at the first WriteHeader/Write like net/http",
+        "sessions: the steps of a schedule are executed one at a time (each acknowledged before the next); the wrapper's "
+        "own branch runs between the step that ends a call and the driver's observation of its return",
     ]
     # ---- design level: timeoutWriter protocol + select (Layer I) satisfies the monitor (Layer P)
     run.model_check(FAM, "TimeoutHTTPImpl", "TimeoutHTTPImplMC.cfg" if thorough else "TimeoutHTTPImplMCq.cfg", workers=4,
@@ -59,10 +115,42 @@ def _design(run, thorough):
                         note="Layer I |= Layer P, scripts <= 5 ops (2 chunks, 1 code, 1 header value)")
 
 
+def _design2(run, thorough):
+    """design level, second part: sessions (several calls through one handler value, stale work) and the context
+    derivation under a caller-supplied parent deadline"""
+    run.model_check(FAM, "TimeoutSessImpl", "TimeoutSessImplMCq.cfg" if not thorough else "TimeoutSessImplMC.cfg",
+                    workers=4,
+                    note="Layer I sessions (a fresh timeoutWriter per call; stale handlers write at any later moment) |= "
+                         "per-call Layer P + Isolation, 2 calls" + ("" if thorough else ", <=1 op before/after the return"))
+    run.model_check(FAM, "TimeoutSessImpl", "TimeoutSessImplBugPool.cfg", workers=2, expect="violation",
+                    note="documented counterexample: writers recycled through a pool also on the timeout path (Isolation)")
+    run.model_check(FAM, "TimeoutDeadlineImpl", "TimeoutDeadlineImplMC.cfg", workers=2,
+                    note="context derivation from (caller deadline none/earlier/equal/later/far, timeout), 4 wrappers |= "
+                         "Layer P + PromptReturn")
+    if thorough:
+        run.model_check(FAM, "TimeoutSessImpl", "TimeoutSessImplMC3.cfg", workers=4, timeout=1500,
+                        note="Layer I sessions, 3 calls, <=2 late ops per call")
+        run.model_check(FAM, "TimeoutSessImpl", "TimeoutSessImplPoolSafe.cfg", workers=4,
+                        note="recycling writers only when the handler goroutine has finished satisfies Layer P "
+                             "(the specification forbids leaking, not pooling)")
+        run.model_check(FAM, "TimeoutDeadlineImpl", "TimeoutDeadlineImplBugKeep.cfg", workers=2, expect="violation",
+                        note="documented counterexample: fx keeps a parent context that already has a (later) deadline "
+                             "(ReturnsWithoutWorker)")
+        run.model_check(FAM, "TimeoutDeadlineImpl", "TimeoutDeadlineImplBugBackground.cfg", workers=2, expect="violation",
+                        note="documented counterexample: context derived from Background (DeadlineShrinks)")
+        run.model_check(FAM, "TimeoutDeadlineImpl", "TimeoutDeadlineImplBugInline.cfg", workers=2, expect="violation",
+                        note="documented counterexample: work called inline under a tighter caller deadline "
+                             "(ReturnsWithoutWorker)")
+
+
 def _drivers(run, thorough, only):
     # ---- spec -> code: worker scripts
-    http = run.generate(FAM, "TimeoutGen", "TimeoutGenHttp4.cfg" if thorough else "TimeoutGenHttp3.cfg")
-    val = run.generate(FAM, "TimeoutGen", "TimeoutGenVal.cfg")
+    http, val, sg, sg3 = _par(
+        lambda: run.generate(FAM, "TimeoutGen", "TimeoutGenHttp4.cfg" if thorough else "TimeoutGenHttp3.cfg"),
+        lambda: run.generate(FAM, "TimeoutGen", "TimeoutGenVal.cfg"),
+        lambda: run.generate(FAM, "TimeoutSessGen", "TimeoutSessGenT.cfg" if thorough else "TimeoutSessGenQ.cfg")
+        if only in (None, "sess") else [],
+        lambda: run.generate(FAM, "TimeoutSessGen", "TimeoutSessGenT3.cfg") if thorough and only in (None, "sess") else [])
     env = {"VERIF_C04_CFGS": 3 if thorough else 2, "VERIF_C04_REPS": 8 if thorough else 2,
            "VERIF_C04_PAR": 32 if thorough else 24}
     tmo = 2400 if thorough else 600
@@ -71,6 +159,8 @@ def _drivers(run, thorough, only):
         for b in beh:
             run.distinct.add((label, str(b)))
 
+    if only in (None, "sess"):
+        _sessions(run, thorough, env, tmo, note, sg, sg3)
     if only in (None, "rest"):
         tr = run.go_driver("rest/handler", DRV, "TestVerifC04Rest$", inp=http, env=env, timeout=tmo)
         run.validate(FAM, *TRACE, tr, label="rest-handler", timeout=1800)
@@ -100,16 +190,94 @@ def _drivers(run, thorough, only):
     run.evaluations = run.traces
 
 
+def _stale(sched):
+    """a schedule in which some call's work acts after that call's wrapper returned"""
+    gone = set()
+    for st in sched:
+        if st["op"] in ("end", "fin"):
+            gone.add(st["q"])
+        elif st["op"] in ("sh", "wh", "wr") and st["q"] in gone:
+            return True
+    return False
+
+
+def _sample(run, beh, keep, salt):
+    """all schedules with stale work + a seeded sample of the others, `keep` in total at most"""
+    import random
+    rnd = random.Random(run.seed * 7919 + salt)
+    core = [b for b in beh if _stale(b)]
+    rest = [b for b in beh if not _stale(b)]
+    rnd.shuffle(core)
+    rnd.shuffle(rest)
+    core = core[:max(keep * 4 // 5, keep - len(rest))]
+    out = core + rest[:max(0, keep - len(core))]
+    out.sort(key=lambda b: (len(b), str(b)))
+    return out
+
+
+def _sessions(run, thorough, env, tmo, note, sg, sg3):
+    """multi-call histories through one handler value (TimeoutSess): stale work of a timed-out call acting
+    while later calls are served; executed step by step in schedule order"""
+    if thorough:
+        sched = _sample(run, sg, 16000, 1)
+        sched3 = _sample(run, sg3, 6000, 2)
+    else:
+        sched = _sample(run, sg, 1600, 1)
+        sched3 = []
+    senv = dict(env)
+    senv["VERIF_C04_SPAR"] = 16
+    allsched = sched + sched3
+
+    def has_timer(b):
+        return any(st["op"] == "end" and st.get("how") == "expire" for st in b)
+    timed = [b for b in allsched if has_timer(b)]
+    untimed = [b for b in allsched if not has_timer(b)]
+    # one P, one session at a time: a step is only started when the previous one was acknowledged, so a session
+    # without a real timer is ONE deterministic sequential history (incl. what a per-P recycling allocator would
+    # hand to the next call). Validated before anything else runs: a defect that lets calls share state may
+    # crash later, concurrent drivers (Go's concurrent-map-write detector), which is infrastructure, not a verdict.
+    tr1 = run.go_driver("rest/handler", SDRV, "TestVerifC04Sess$", inp=untimed, env=senv, cpu=1, timeout=tmo)
+    try:
+        tr2 = run.go_driver("rest/handler", SDRV, "TestVerifC04Sess$", inp=timed, env=senv, cpu=1, timeout=tmo)
+    except Exception:
+        run.validate(FAM, *STRACE, tr1, label="rest-sessions-seq", timeout=1800)
+        raise
+    run.validate(FAM, *STRACE, _merge(run, [tr1, tr2], "sessions.ndjson"), label="rest-sessions", timeout=1800)
+    note("sess", allsched)
+    if thorough:
+        part = allsched[run.seed % 4::4]
+        tr = run.go_driver("rest/handler", SDRV, "TestVerifC04Sess$", inp=part, env=senv, timeout=tmo)
+        run.validate(FAM, *STRACE, tr, label="rest-sessions-multiP", timeout=1800)
+
+
 LEVEL_TEXT = ("Exhaustive TLC model checking that the timeoutWriter mutex/flag/buffer protocol and the select of "
               "timeouthandler.go (PlusCal, all interleavings with expiry, incl. liveness of returning) satisfy the Layer-P "
-              "monitor, plus conformance: every TLC-enumerated worker script is executed against the five real wrappers "
-              "(handler, engine routes, rpc server, rpc client, fx) and every call is validated by TLC.")
+              "monitor, that a session of calls through one handler value with stale handlers keeps every call's client "
+              "isolated (TimeoutSessImpl), and that the context derivation under a caller-supplied parent deadline returns "
+              "at min(caller, now+timeout) (TimeoutDeadlineImpl), plus conformance: every TLC-enumerated worker script is "
+              "executed against the five real wrappers (handler, engine routes, rpc server, rpc client, fx), TLC-enumerated "
+              "multi-call schedules against one real TimeoutHandler value, and every call/session is validated by TLC.")
 LEVEL_NOTE = ("Trusted: TLC/SANY/PlusCal translator, Go toolchain, the harness ResponseWriter and event ordering (A.5). Real "
               "code is sampled: the both-ready select race is rare without a hook and is covered exhaustively only at "
-              "design level; Flush/Hijack/Push and streaming gRPC are not covered; 'stuck' relies on a 30 s watchdog.")
+              "design level; Flush/Hijack/Push and streaming gRPC are not covered; 'stuck' relies on a 30 s watchdog (this is also "
+              "how a later-than-timeout caller deadline that replaces the timeout shows for fx, whose fn sees no context: the "
+              "far-later caller deadline makes it 'never'; a moderately later one is only covered at design level by "
+              "PromptReturn). Multi-call sessions are bound to rest/handler.TimeoutHandler (the wrapper with per-request "
+              "state); the rpc interceptors and fx keep no state between calls and are driven call by call.")
 TECHNIQUE = "TLA+ monitor spec (Timeout) + PlusCal implementation model, TLC-generated scripts replayed, TLC trace validation"
 DESIGN_REF = "DESIGN.md Part B C04"
 
 
 def replay(run, path):
-    run.replay(FAM, *TRACE, path)
+    import json
+    sess = False
+    for ln in open(path):
+        if not ln.strip():
+            continue
+        ev = json.loads(ln)
+        if ev.get("e") == "header":
+            sess = "TimeoutSessTrace" in ev.get("spec", "")
+            continue
+        sess = sess or bool(ev.get("sess"))
+        break
+    run.replay(FAM, *(STRACE if sess else TRACE), path)
